@@ -103,7 +103,14 @@ func main() {
 			cases = append(cases, genC01(r, i))
 		}
 		for i := 0; i < *n/4; i++ {
-			cases = append(cases, genC01Multi(r))
+			if i%2 == 0 {
+				cases = append(cases, genC01Multi(r))
+			} else {
+				cases = append(cases, genMultiShared(r, "multiroot-shared"))
+			}
+		}
+		for i := 0; i < *n/6; i++ {
+			cases = append(cases, genMultiPath(r, "multipath", false))
 		}
 		for i := 0; i < *n/8; i++ {
 			cases = append(cases, genC01OnDisk(r, i))
@@ -121,13 +128,31 @@ func main() {
 			cases = append(cases, genC08RootOrder(r, 100000+g)...)
 		}
 		for i := 0; i < *n/2; i++ {
-			cases = append(cases, genC08Multi(r))
+			if i%2 == 0 {
+				cases = append(cases, genC08Multi(r))
+			} else {
+				c := genMultiShared(r, "multiroot-shared")
+				c.StatReq = nil
+				cases = append(cases, c)
+			}
 		}
 	case "C09":
 		cases = append(cases, genC09(r, *n, 4, *exhaustive)...)
+		for i := 0; i < *n*3; i++ {
+			cases = append(cases, genMultiPath(r, "multipath-faults", true))
+		}
 	case "C10":
 		cases = append(cases, fixedC10()...)
 		cases = append(cases, genC10(r, *n, *exhaustive)...)
+		for i := 0; i < *n*2; i++ {
+			// several roots sharing relative paths with sizes around the limit (the lazy Stat must look at the right root)
+			c := genMultiShared(r, "multiroot-shared")
+			c.MaxSize = []int{1, 5, 10}[r.Intn(3)]
+			if r.Intn(3) == 0 {
+				c.MaxInodes = 3 + r.Intn(12)
+			}
+			cases = append(cases, c)
+		}
 	default:
 		fmt.Fprintln(os.Stderr, "unknown -prop", *prop)
 		os.Exit(2)
